@@ -70,24 +70,16 @@ impl SortingInference<'_> {
             .map(|(riid, rel_inst)| (riid, &rel_inst.cid_redirects))
             .collect::<HashMap<_, _>>();
 
-        // a map of column -> alias
-        let column_aliases = self
-            .ctx
-            .anchor
-            .column_decls
-            .values()
-            .filter_map(|col| {
-                if let ColumnDecl::Compute(compute) = col {
-                    if let ExprKind::ColumnRef(referenced_id) = compute.expr.kind {
-                        Some((referenced_id, compute.id))
-                    } else {
-                        None
-                    }
-                } else {
-                    None
+        // a map of column -> alias (the first one declared, when there are several)
+        let mut column_aliases: HashMap<CId, CId> = HashMap::new();
+        for col in self.ctx.anchor.column_decls.values() {
+            if let ColumnDecl::Compute(compute) = col {
+                if let ExprKind::ColumnRef(referenced_id) = compute.expr.kind {
+                    let alias = column_aliases.entry(referenced_id).or_insert(compute.id);
+                    *alias = (*alias).min(compute.id);
                 }
-            })
-            .collect::<HashMap<_, _>>();
+            }
+        }
         log::debug!(".. column aliases: {column_aliases:?}");
 
         // column -> list of tables that did a revert
